@@ -249,6 +249,10 @@ func genCase(rng *rand.Rand, n int, seed int64, pf Profile) *CaseDesc {
 				p.Out = pickOut(0)
 				pos := rng.Intn(len(p.Out) + 1)
 				p.Out = append(p.Out[:pos], append([]int{cTE}, p.Out[pos:]...)...)
+				if chance(rng, 0.2) {
+					// an ordinary error result listed before the TerminalError
+					p.Out = append(p.Out[:pos:pos], append([]int{cError}, p.Out[pos:]...)...)
+				}
 				p.FailMask = []uint{0, 0, 0xff, 1, 2, 5, 0xaa}[rng.Intn(7)]
 			} else {
 				min := 1
